@@ -10,10 +10,10 @@ import os, subprocess, itertools
 
 ID = 'C08'
 PROFILES = ['debug']
-THEOREMS = ['C08_refuted', 'C08_refuted_memo_leak', 'C08_refuted_disjunct_attrs', 'C08_refuted_memo_ignores_pred',
-            'C08_refuted_compound_pred', 'C08_refuted_compound_pred_array', 'C08_refuted_any_entry', 'C08_refuted_any_elem',
-            'C08_refuted_self_reference', 'C08_refuted_examined_alternative', 'C08_alternative_order_matters',
-            'C08_refuted_named_disjunct', 'C08_refuted_stale_index', 'C08_refuted_undefined_required']
+THEOREMS = ['C08_refuted', 'C08_refuted_any_entry', 'C08_refuted_any_entry_stream', 'C08_refuted_any_entry_star',
+            'C08_fixed_memo_leak', 'C08_fixed_disjunct_attrs', 'C08_fixed_memo_pred', 'C08_fixed_compound_pred',
+            'C08_fixed_any_elem', 'C08_fixed_self_reference', 'C08_fixed_examined_alternative', 'C08_fixed_named_disjunct',
+            'C08_fixed_stale_index', 'C08_fixed_undefined_required']
 ALLOWED_AXIOMS = []
 CASE_TIMEOUT = 300
 ROOT = os.path.dirname(os.path.dirname(os.path.abspath(__file__)))
@@ -403,8 +403,9 @@ PRIM_OF = {'b': 'b', 's': 's', 'm': 'm', 'n': 'n', 'i': 'i', 'q': 'q', 'c': 'c'}
 FALSE = ('false',)
 
 
-def unfold(octx, tctx, o, c):
-    """one layer: returns FALSE, or ('and', [pairs]) / ('andor', [pairs], [alternatives])"""
+def unfold(octx, tctx, o, c, skip_any_entries=False):
+    """one layer: returns FALSE, or ('and', [pairs]) / ('andor', [pairs], [alternatives]).
+    skip_any_entries: the reading of known finding C08-any-entry (entries of type Any are not checked)"""
     if c[0] == '@':
         c = tctx.get(c[1])
         if c is None:
@@ -446,6 +447,8 @@ def unfold(octx, tctx, o, c):
             else:
                 if opt == '-':
                     return FALSE
+                if skip_any_entries and _is_any(tctx, ec):
+                    continue
                 kids.append((v, ec))
         if k == 'D' and t[2] is not None:
             sc, sopt = t[2]
@@ -454,12 +457,19 @@ def unfold(octx, tctx, o, c):
                 if key not in specified:
                     if sopt == '-':
                         return FALSE
+                    if skip_any_entries and _is_any(tctx, sc):
+                        continue
                     kids.append((v, sc))
         return ('and', kids)
     raise ValueError(t)
 
 
-def conforms(octx, tctx, o, c):
+def _is_any(tctx, c):
+    r = tctx.get(c[1]) if c[0] == '@' else c
+    return r is not None and r[1][0] == '_'
+
+
+def conforms(octx, tctx, o, c, skip_any_entries=False):
     """greatest fixed point by Kleene iteration over the reachable pairs"""
     nodes = {}
     work = [(o, c)]
@@ -467,7 +477,7 @@ def conforms(octx, tctx, o, c):
         p = work.pop()
         if p in nodes:
             continue
-        u = unfold(octx, tctx, p[0], p[1])
+        u = unfold(octx, tctx, p[0], p[1], skip_any_entries)
         nodes[p] = u
         if u is not FALSE:
             work.extend(u[1])
@@ -624,10 +634,6 @@ def features(case):
     if any(c[2] is not None and c[1][0] == 'A' and (_resolve(tctx, c[1][1]) or ('r', ('_',), None, ''))[1][0] != '_' for c in reps):
         f.add('compound-pred')
     for c in reps:
-        if c[1][0] == 'A':
-            r = _resolve(tctx, c[1][1])
-            if r is not None and r[1][0] == '_' and (r[2] is not None or r[3] != ''):
-                f.add('any-entry')
         if c[1][0] in 'DS':
             ents = [e[1] for e in c[1][1]] + ([c[1][2][0]] if c[1][0] == 'D' and c[1][2] is not None else [])
             for e in ents:
@@ -661,23 +667,19 @@ def features(case):
     return f
 
 
-KNOWN_FEATURE = {
-    'C08-disjunct': 'disjunct',
-    'C08-coarse-memo': 'coarse',
-    'C08-compound-pred': 'compound-pred',
-    'C08-any-entry': 'any-entry',
-    'C08-ref-cycle': 'ref-cycle',
-}
-
-
 def known_class(kid, case, obs, prof):
-    f = features(case)
-    if kid == 'C08-coarse-memo':
-        return 'coarse' in f or 'indirect-attr' in f
-    if kid == 'C08-undef-required':
-        return 'undef-ref' in f and 'indirect-attr' in f
-    w = KNOWN_FEATURE.get(kid)
-    return w is not None and w in f
+    """C08-any-entry: the implementation's verdict is the one of the reading in which dictionary / stream
+    entries (and the * entry) whose check has type Any are not checked at all, and the specification
+    has such an entry carrying a predicate or a non-Allowed indirect specification"""
+    if kid != 'C08-any-entry':
+        return False
+    if 'any-entry' not in features(case):
+        return False
+    mode, octx, tctx, chk, obj = parse_case(case)
+    if not closed_spec(tctx, chk):
+        return False
+    verdict = obs.split(' steps=')[0]
+    return (verdict == 'accept') == conforms(octx, tctx, obj, chk, skip_any_entries=True)
 
 
 # ====================================================================== generators
